@@ -114,11 +114,14 @@ fn case_strategy(tier: Tier) -> BoxedStrategy<Case> {
             }
             Case { entries, bad: bi, rand, cuts: None }
         }),
-        3 => (good.clone(), any::<u64>()).prop_map(|(es, rand)| Case {
-            entries: es.into_iter().map(|e| B(e.into_bytes())).collect(),
-            bad: None,
-            rand,
-            cuts: None,
+        3 => (good.clone(), any::<u64>(), prop::option::weighted(0.25, any::<u16>())).prop_map(|(mut es, rand, dup)| {
+            // one stream in four repeats an entry verbatim right behind itself
+            if let Some(sel) = dup {
+                let k = idx(sel, es.len());
+                let e = es[k].clone();
+                es.insert(k, e);
+            }
+            Case { entries: es.into_iter().map(|e| B(e.into_bytes())).collect(), bad: None, rand, cuts: None }
         }),
         2 => (prop::collection::vec(entry_text(), 0..max_entries), bad_entry(), any::<u16>(), any::<u64>()).prop_map(|(es, bad, pos, rand)| {
             let mut entries: Vec<B> = es.into_iter().map(|e| B(e.into_bytes())).collect();
